@@ -1479,3 +1479,269 @@ Proof.
     unfold sel. destruct (d_type it =? CC_OTHER) eqn:Et; [|reflexivity]. cbn [andb].
     assert (Ht : d_type it = CC_OTHER) by lia. unfold eff. rewrite Ht. reflexivity.
 Qed.
+
+(* --- the packed elements --- *)
+Definition kn (st : cc) (F : N) : list bytes :=
+  if isSet st F && negb (F =? CC_OTHER) then [pack_one st F] else [].
+Definition all_flags : list N := seqN CC_PUBLIC (N.to_nat CC_ENUM_END).
+Definition known (st : cc) : list bytes := flat_map (kn st) all_flags.
+
+Definition name_char (c : N) : bool := is_lower c || (c =? 45).
+Definition nm (F : N) : bytes := name_of cc_table F.
+
+(* facts about the regenerated names of the known directives, by computation over the table *)
+Definition known_ids : list N := seqN CC_PUBLIC (N.to_nat CC_OTHER).
+Lemma names_ok : forallb (fun F => forallb name_char (nm F) && negb (lenN (nm F) =? 0) &&
+                                   (cc_type_by_name (nm F) =? F)) known_ids = true.
+Proof. vm_compute. reflexivity. Qed.
+
+Lemma in_known_ids F : F < CC_OTHER -> In F known_ids.
+Proof.
+  intros H. unfold CC_OTHER in H. unfold known_ids.
+  assert (Hc : F = 0 \/ F = 1 \/ F = 2 \/ F = 3 \/ F = 4 \/ F = 5 \/ F = 6 \/ F = 7 \/ F = 8 \/ F = 9 \/
+               F = 10 \/ F = 11 \/ F = 12 \/ F = 13) by lia.
+  repeat (destruct Hc as [Hc|Hc]; [subst F; vm_compute; tauto|]). subst F; vm_compute; tauto.
+Qed.
+
+Lemma nm_facts F : F < CC_OTHER ->
+  forallb name_char (nm F) = true /\ nm F <> [] /\ cc_type_by_name (nm F) = F.
+Proof.
+  intros H. pose proof names_ok as Hall. rewrite forallb_forall in Hall.
+  specialize (Hall F (in_known_ids F H)). apply andb_prop in Hall. destruct Hall as [Hall H3].
+  apply andb_prop in Hall. destruct Hall as [H1 H2]. split; [exact H1|]. split; [|lia].
+  intros E. rewrite E in H2. discriminate.
+Qed.
+
+Lemma name_char_props c : name_char c = true ->
+  (c =? 61) = false /\ (c =? 34) = false /\ (c =? 44) = false /\ (c =? 92) = false /\ is_xspace c = false /\
+  (c =? 0) = false /\ is_delim2 44 c = false.
+Proof. unfold name_char, is_lower, is_xspace, is_delim2. lia. Qed.
+
+(* splitting name=argument when the name has no '=' *)
+Lemma span_name : forall n x, forallb name_char n = true ->
+  span (fun c => negb (c =? 61)) (n ++ x) = (n ++ fst (span (fun c => negb (c =? 61)) x), snd (span (fun c => negb (c =? 61)) x)).
+Proof.
+  induction n as [|c r IH]; intros x H; cbn [app].
+  - destruct (span _ x); reflexivity.
+  - cbn [forallb] in H. apply andb_prop in H. destruct H as [Hc Hr]. cbn [span].
+    destruct (name_char_props c Hc) as (E61 & _). rewrite E61. cbn [negb].
+    rewrite (IH x Hr). reflexivity.
+Qed.
+
+Lemma d_name_plain n : forallb name_char n = true -> d_name n = n /\ d_arg n = None.
+Proof.
+  intros H. unfold d_name, d_arg. rewrite <- (app_nil_r n) at 1 3. rewrite (span_name n [] H). cbn [span fst snd].
+  now rewrite app_nil_r.
+Qed.
+Lemma d_name_eq n a : forallb name_char n = true -> d_name (n ++ 61 :: a) = n /\ d_arg (n ++ 61 :: a) = Some a.
+Proof.
+  intros H. unfold d_name, d_arg. rewrite (span_name n (61 :: a) H). cbn [span N.eqb Pos.eqb negb fst snd].
+  now rewrite app_nil_r.
+Qed.
+
+(* scanning names, digits and plain quoted text *)
+Lemma scan_q_unq : forall l, forallb (fun c => negb (c =? 34) && negb (c =? 44)) l = true -> scan_q false l = Some false.
+Proof.
+  induction l as [|c r IH]; intros H; [reflexivity|].
+  cbn [forallb] in H. apply andb_prop in H. destruct H as [Hc Hr]. cbn [scan_q].
+  replace (c =? 34) with false by lia. replace (c =? 44) with false by lia. now apply IH.
+Qed.
+Lemma scan_q_quoted : forall X, forallb qd_char X = true -> scan_q true (X ++ [34]) = Some false.
+Proof.
+  induction X as [|c r IH]; intros H; [reflexivity|].
+  cbn [forallb] in H. apply andb_prop in H. destruct H as [Hc Hr]. cbn [app scan_q].
+  destruct (qd_char_plain c Hc) as (E34 & _ & _ & E92 & _). rewrite E34, E92. now apply IH.
+Qed.
+
+Lemma forallb_impl {A} (p q : A -> bool) l : (forall x, p x = true -> q x = true) ->
+  forallb p l = true -> forallb q l = true.
+Proof.
+  intros Hpq. induction l as [|x l IH]; [reflexivity|]. cbn [forallb]. intros H. apply andb_prop in H.
+  destruct H as [Hx Hl]. now rewrite (Hpq x Hx), IH.
+Qed.
+
+Lemma ends_of_last l c : is_xspace c = false -> ends_nonspace (l ++ [c]).
+Proof. intros H. now exists l, c. Qed.
+
+Lemma ends_of_forallb l : l <> [] -> forallb (fun c => negb (is_xspace c)) l = true -> ends_nonspace l.
+Proof.
+  intros Hne H. destruct (@exists_last _ l Hne) as (b & c & ->).
+  rewrite forallb_app in H. apply andb_prop in H. destruct H as [_ H]. cbn [forallb] in H.
+  apply ends_of_last. destruct (is_xspace c); [discriminate|reflexivity].
+Qed.
+
+Definition arg_ok (a : bytes) : Prop :=
+  a = [] \/ (exists ds, a = 61 :: ds /\ ds <> [] /\ forallb is_digit ds = true) \/
+  (exists X, a = 61 :: 34 :: X ++ [34] /\ forallb qd_char X = true).
+
+Lemma good_name_arg F a : F < CC_OTHER -> arg_ok a -> good_item (nm F ++ a).
+Proof.
+  intros HF Ha. destruct (nm_facts F HF) as (Hn & Hne & _).
+  destruct (nm F) as [|n0 nr] eqn:En; [contradiction|].
+  pose proof Hn as Hn0. cbn [forallb] in Hn. apply andb_prop in Hn. destruct Hn as [Hc0 Hnr].
+  destruct (name_char_props n0 Hc0) as (_ & _ & _ & _ & _ & _ & Hd0).
+  assert (Hnn : no_nul (n0 :: nr)).
+  { unfold no_nul. apply (forallb_impl name_char); [|exact Hn0]. intros x Hx.
+    destruct (name_char_props x Hx) as (_ & _ & _ & _ & _ & E0 & _). now rewrite E0. }
+  assert (Hns : forallb (fun c => negb (is_xspace c)) (n0 :: nr) = true).
+  { apply (forallb_impl name_char); [|exact Hn0]. intros x Hx.
+    destruct (name_char_props x Hx) as (_ & _ & _ & _ & Es & _). now rewrite Es. }
+  assert (Hsc : scan_q false (n0 :: nr) = Some false).
+  { apply scan_q_unq. apply (forallb_impl name_char); [|exact Hn0]. intros x Hx.
+    destruct (name_char_props x Hx) as (_ & E34 & E44 & _). now rewrite E34, E44. }
+  split; [exact Hd0|].
+  destruct Ha as [->|[(ds & -> & Hdne & Hds)|(X & -> & HX)]].
+  - rewrite app_nil_r. split; [apply ends_of_forallb; [discriminate|exact Hns]|]. split; [exact Hnn|exact Hsc].
+  - split; [|split].
+    + apply ends_of_forallb; [discriminate|]. rewrite forallb_app, Hns. cbn [forallb andb].
+      apply (forallb_impl is_digit); [|exact Hds]. intros x Hx. unfold is_digit, is_xspace in *. lia.
+    + apply no_nul_app. split; [exact Hnn|]. unfold no_nul. cbn [forallb andb N.eqb negb].
+      apply (forallb_impl is_digit); [|exact Hds]. intros x Hx. unfold is_digit in *. lia.
+    + unfold closed. rewrite (scan_q_app _ false false _ Hsc). apply scan_q_unq. cbn [forallb andb N.eqb Pos.eqb negb].
+      apply (forallb_impl is_digit); [|exact Hds]. intros x Hx. unfold is_digit in *. lia.
+  - split; [|split].
+    + replace ((n0 :: nr) ++ 61 :: 34 :: X ++ [34]) with (((n0 :: nr) ++ 61 :: 34 :: X) ++ [34])
+        by (rewrite <- !app_assoc; reflexivity).
+      now apply ends_of_last.
+    + apply no_nul_app. split; [exact Hnn|]. unfold no_nul. cbn [forallb andb N.eqb Pos.eqb negb].
+      rewrite forallb_app. cbn [forallb andb N.eqb Pos.eqb negb]. rewrite andb_true_r.
+      apply (forallb_impl qd_char); [|exact HX]. intros x Hx. unfold qd_char in Hx. lia.
+    + unfold closed. rewrite (scan_q_app _ false false _ Hsc). cbn [scan_q N.eqb Pos.eqb]. now apply scan_q_quoted.
+Qed.
+
+(* --- each packed element, read back as an item --- *)
+Definition pk_arg (st : cc) (flag : N) : bytes :=
+  if flag =? CC_PRIVATE then
+     match private_ st with [] => [] | v => [61; 34] ++ v ++ [34] end
+   else if flag =? CC_NO_CACHE then
+     match no_cache st with [] => [] | v => [61; 34] ++ v ++ [34] end
+   else if flag =? CC_MAX_AGE then 61 :: dec_of_Z (max_age st)
+   else if flag =? CC_S_MAXAGE then 61 :: dec_of_Z (s_maxage st)
+   else if flag =? CC_MAX_STALE then
+     if (max_stale st =? MAX_STALE_ANY)%Z then [] else 61 :: dec_of_Z (max_stale st)
+   else if flag =? CC_MIN_FRESH then 61 :: dec_of_Z (min_fresh st)
+   else if flag =? CC_STALE_IF_ERROR then 61 :: dec_of_Z (stale_if_error st)
+   else [].
+Lemma pack_one_eq st F : pack_one st F = nm F ++ pk_arg st F.
+Proof. reflexivity. Qed.
+
+Lemma dec_of_Z_digits v : (0 <= v < 2147483648)%Z -> dec_of_Z v <> [] /\ forallb is_digit (dec_of_Z v) = true.
+Proof.
+  intros Hv. unfold dec_of_Z. replace (v <? 0)%Z with false by lia.
+  assert (Hn : Z.to_N v < 10 ^ N.of_nat 12) by (change (10 ^ N.of_nat 12) with 1000000000000; lia).
+  destruct (dec_digits_spec 11 _ Hn) as (_ & Hd & Hne). now split.
+Qed.
+
+(* what the item says, for every possible argument shape *)
+Inductive item_view (st : cc) (F : N) : Prop :=
+| IV : arg_ok (pk_arg st F) ->
+       d_type (pack_one st F) = F -> eff (pack_one st F) = true ->
+       (is_numeric_type F = true -> num_of (pack_one st F) = get_num st F) ->
+       (F = CC_PRIVATE -> qs_text (d_qs (pack_one st F)) = private_ st) ->
+       (F = CC_NO_CACHE -> qs_text (d_qs (pack_one st F)) = no_cache st) -> item_view st F.
+
+Lemma d_qs_quoted F X : F < CC_OTHER -> forallb qd_char X = true ->
+  d_qs (nm F ++ 61 :: 34 :: X ++ [34]) = Some (QOk X).
+Proof.
+  intros HF HX. destruct (nm_facts F HF) as (Hn & _ & _).
+  unfold d_qs. destruct (d_name_eq (nm F) (34 :: X ++ [34]) Hn) as [_ ->].
+  f_equal. apply pqs_plain; [exact HX|]. cbn [lenN]. rewrite lenN_app. cbn [lenN]. lia.
+Qed.
+
+Lemma d_num_dec F v : F < CC_OTHER -> (0 <= v < 2147483648)%Z -> d_num (nm F ++ 61 :: dec_of_Z v) = Some v.
+Proof.
+  intros HF Hv. destruct (nm_facts F HF) as (Hn & _ & _).
+  unfold d_num. destruct (d_name_eq (nm F) (dec_of_Z v) Hn) as [_ ->].
+  rewrite (parse_int_dec v Hv). replace (v <? 0)%Z with false by lia. reflexivity.
+Qed.
+
+Lemma d_type_name_arg F a : F < CC_OTHER -> (a = [] \/ exists x, a = 61 :: x) -> d_type (nm F ++ a) = F.
+Proof.
+  intros HF Ha. destruct (nm_facts F HF) as (Hn & _ & Ht). unfold d_type.
+  destruct Ha as [->|(x & ->)].
+  - rewrite app_nil_r. destruct (d_name_plain (nm F) Hn) as [-> _]. exact Ht.
+  - destruct (d_name_eq (nm F) x Hn) as [-> _]. exact Ht.
+Qed.
+
+Lemma d_plain F : F < CC_OTHER -> d_num (nm F) = None /\ d_qs (nm F) = None.
+Proof.
+  intros HF. destruct (nm_facts F HF) as (Hn & _ & _). unfold d_num, d_qs.
+  destruct (d_name_plain (nm F) Hn) as [_ ->]. split; reflexivity.
+Qed.
+
+Lemma item_view_ok st F : cc_wf st -> F < CC_OTHER -> isSet st F = true -> item_view st F.
+Proof.
+  intros (Hrange & Hpv & Hnc & _ & _) HF HS.
+  assert (Hc : F = 0 \/ F = 1 \/ F = 2 \/ F = 3 \/ F = 4 \/ F = 5 \/ F = 6 \/ F = 7 \/ F = 8 \/ F = 9 \/
+               F = 10 \/ F = 11 \/ F = 12 \/ F = 13) by (unfold CC_OTHER in HF; lia).
+  assert (Hnum : forall G, G = F -> is_numeric_type G = true -> (0 <= get_num st G < 2147483648)%Z).
+  { intros G -> HG. now apply Hrange. }
+  (* flags *)
+  assert (Hflag : is_flag_type F = true -> pk_arg st F = [] -> item_view st F).
+  { intros Hf Ha.
+    assert (Ht : d_type (nm F) = F) by (rewrite <- (app_nil_r (nm F)); apply d_type_name_arg; [exact HF|now left]).
+    constructor.
+    - rewrite Ha. now left.
+    - rewrite pack_one_eq, Ha, app_nil_r. exact Ht.
+    - rewrite pack_one_eq, Ha, app_nil_r. unfold eff. rewrite Ht.
+      unfold_ids.
+      repeat match goal with |- context [if ?c then _ else _] => destruct c eqn:? end; try reflexivity; lia.
+    - intros Hn. unfold_ids. lia.
+    - intros ->. discriminate.
+    - intros ->. discriminate. }
+  (* numeric with "=value" *)
+  assert (Hnumv : is_numeric_type F = true -> pk_arg st F = 61 :: dec_of_Z (get_num st F) -> item_view st F).
+  { intros Hn Ha. pose proof (Hnum F eq_refl Hn) as Hr. destruct (dec_of_Z_digits _ Hr) as [Hne Hds].
+    assert (Hd : d_num (pack_one st F) = Some (get_num st F)) by (rewrite pack_one_eq, Ha; now apply d_num_dec).
+    assert (Ht : d_type (pack_one st F) = F) by (rewrite pack_one_eq, Ha; apply d_type_name_arg; [exact HF|right; eauto]).
+    constructor.
+    - rewrite Ha. right. left. eauto.
+    - exact Ht.
+    - unfold eff. rewrite Ht, Hn, Hd. apply orb_true_r.
+    - intros _. unfold num_of. now rewrite Hd.
+    - intros ->. discriminate.
+    - intros ->. discriminate. }
+  (* quoted *)
+  assert (Hq : forall txt, (F = CC_PRIVATE \/ F = CC_NO_CACHE) -> forallb qd_char txt = true ->
+                 (F = CC_PRIVATE -> txt = private_ st) -> (F = CC_NO_CACHE -> txt = no_cache st) ->
+                 pk_arg st F = match txt with [] => [] | v => [61; 34] ++ v ++ [34] end -> item_view st F).
+  { intros txt HFq Htxt Hp1 Hp2 Ha.
+    assert (Ht : d_type (pack_one st F) = F).
+    { rewrite pack_one_eq, Ha. apply d_type_name_arg; [exact HF|]. destruct txt; [now left|right; eauto]. }
+    assert (Hqs : qs_text (d_qs (pack_one st F)) = txt).
+    { rewrite pack_one_eq, Ha. destruct txt as [|t0 tr].
+      - rewrite app_nil_r. destruct (d_plain F HF) as [_ ->]. reflexivity.
+      - cbn [app]. change (t0 :: tr ++ [34]) with ((t0 :: tr) ++ [34]). now rewrite (d_qs_quoted F (t0 :: tr) HF Htxt). }
+    assert (Hok : match d_qs (pack_one st F) with Some QFail => false | Some QFuel => false | _ => true end = true).
+    { rewrite pack_one_eq, Ha. destruct txt as [|t0 tr].
+      - rewrite app_nil_r. destruct (d_plain F HF) as [_ ->]. reflexivity.
+      - cbn [app]. change (t0 :: tr ++ [34]) with ((t0 :: tr) ++ [34]). now rewrite (d_qs_quoted F (t0 :: tr) HF Htxt). }
+    constructor.
+    - rewrite Ha. destruct txt as [|t0 tr]; [now left|]. right. right. exists (t0 :: tr). split; [reflexivity|exact Htxt].
+    - exact Ht.
+    - unfold eff. rewrite Ht. destruct HFq as [->| ->]; [reflexivity|]. exact Hok.
+    - intros Hn. destruct HFq as [->| ->]; discriminate.
+    - intros E. rewrite Hqs. now apply Hp1.
+    - intros E. rewrite Hqs. now apply Hp2. }
+  repeat (destruct Hc as [Hc|Hc]; [subst F;
+    first [ apply Hflag; reflexivity
+          | apply Hnumv; reflexivity
+          | apply (Hq (private_ st)); [now left|exact Hpv|reflexivity|discriminate|reflexivity]
+          | apply (Hq (no_cache st)); [now right|exact Hnc|discriminate|reflexivity|reflexivity]
+          | idtac ] |]).
+  all: try (subst F; apply Hflag; reflexivity).
+  (* max-stale: valueless when it holds MAX_STALE_ANY *)
+  pose proof (Hnum 9 eq_refl eq_refl) as Hr. change (get_num st 9) with (max_stale st) in Hr.
+  destruct (max_stale st =? MAX_STALE_ANY)%Z eqn:Eany.
+  - assert (Ha : pk_arg st 9 = []) by (unfold pk_arg; cbn; now rewrite Eany).
+    assert (Ht : d_type (pack_one st 9) = 9) by (rewrite pack_one_eq, Ha; apply d_type_name_arg; [reflexivity|now left]).
+    constructor.
+    + rewrite Ha. now left.
+    + exact Ht.
+    + unfold eff. rewrite Ht. reflexivity.
+    + intros _. unfold num_of. rewrite pack_one_eq, Ha, app_nil_r. destruct (d_plain 9 eq_refl) as [-> _].
+      change (get_num st 9) with (max_stale st). lia.
+    + discriminate.
+    + discriminate.
+  - apply Hnumv; [reflexivity|]. unfold pk_arg. cbn. now rewrite Eany.
+Qed.
